@@ -152,7 +152,9 @@ def check_guards(ctx, cfg):
                        (K + "into_vec", [K + "into_boxed_slice", ("core::convert::From::from", "alloc::slice::<impl [T]>::into_vec", "core::convert::Into::into")]),
                        ("<GenericArray<$0,$1> as core::convert::TryFrom<alloc::boxed::Box<[$0],alloc::alloc::Global>>>::try_from", ["core::convert::From::from", "core::convert::TryInto::try_into"]),
                        ("<alloc::boxed::Box<[$0],alloc::alloc::Global> as core::convert::From<GenericArray<$0,$1>>>::from", ["alloc::boxed::Box::<T>::new", K + "into_boxed_slice"]),
-                       ("<alloc::vec::Vec<$0,alloc::alloc::Global> as core::convert::From<GenericArray<$0,$1>>>::from", ["<alloc::boxed::Box<[$0],alloc::alloc::Global> as core::convert::From<GenericArray<$0,$1>>>::from", "core::convert::Into::into"])):
+                       ("<alloc::vec::Vec<$0,alloc::alloc::Global> as core::convert::From<GenericArray<$0,$1>>>::from",
+                        [("<alloc::boxed::Box<[$0],alloc::alloc::Global> as core::convert::From<GenericArray<$0,$1>>>::from", "alloc::boxed::Box::<T>::new"),
+                         ("core::convert::Into::into", K + "into_vec", "alloc::slice::<impl [T]>::into_vec")])):
         b = ctx.body(cfg, key, "C15.D")
         if b is None:
             continue
@@ -175,7 +177,20 @@ def check_guards(ctx, cfg):
         names = [c.key or c.fn for c in pc]
         eqp = any(p.get("k") == "proj" and p["def"].endswith("IntoArrayLength::ArrayLength") for p in b.get("predicates", []))
         ok = names[:1] == [K + "try_from_vec"] and pc[0].args[0] == ("V", "arg", 2) and eqp
-        ctx.ob("C15.D", key, ok, "__from_vec_helper = try_from_vec(vec).unwrap_unchecked() with Const<U>: IntoArrayLength<ArrayLength = N> tying the unit-array length to N: %s (that vec.len() == U is established by the macro expansion, C20.B)" % ok, at=b["at"], cfg=cfg)
+        form = "try_from_vec(vec).unwrap_unchecked()"
+        if not ok and eqp:
+            # the same hand-over written out: into_boxed_slice(vec), then the SAME pointer back into a Box<GenericArray<T, N>> - reached only under len == N
+            N_ = a.tenv.length({"k": "param", "n": b["generics"][1]["n"]})
+            ibs = [c for c in a.calls if c.fn == "alloc::vec::Vec::<T, A>::into_boxed_slice" and c.args[0] == ("V", "arg", 2)]
+            ir = [c for c in a.calls if c.fn.endswith("::into_raw")]
+            fr = [c for c in a.calls if c.fn.endswith("::from_raw")]
+            if len(ibs) == 1 and len(ir) == 1 and len(fr) == 1:
+                same = ir[0].args[0] == ibs[0].ret and fr[0].args[0][0] == "P" and ir[0].ret[0] == "P" and fr[0].args[0][1] == ir[0].ret[1] and fr[0].args[0][2] == ir[0].ret[2]
+                ln = [c for c in a.calls if c.fn == "core::slice::<impl [T]>::len" and c.ret[0] == "I"]
+                guard = any(a.prove(fr[0].facts, "Eq", c.ret[1], N_) for c in ln) or (ir[0].ret[3] is not None and a.prove(fr[0].facts, "Eq", ir[0].ret[3], N_))
+                ok = same and guard and all(r["val"] == fr[0].ret for r in a.returns)
+                form = "Box::from_raw(Box::into_raw(vec.into_boxed_slice()) as *mut GenericArray<T, N>) under len == N (same pointer: %s, guard: %s)" % (same, guard)
+        ctx.ob("C15.D", key, ok, "__from_vec_helper = %s with Const<U>: IntoArrayLength<ArrayLength = N> tying the unit-array length to N: %s (that vec.len() == U is established by the macro expansion, C20.B)" % (form, ok), at=b["at"], cfg=cfg)
 
 
 def check_reuse(ctx, cfg):
